@@ -414,7 +414,7 @@ class VectorEngine(Engine):
             if ctx.enough():
                 return
         n = self.random_n.get(ctx.tier, 0)
-        if self.trace and n:
+        if self.trace and n and not (getattr(self, "fail_fast", False) and ctx.violations):
             self.flow_b(ctx, n)
 
     def flow_a(self, ctx, vecs, tag):
